@@ -502,6 +502,17 @@ func (fc *FnCtx) evalCall(x *ECall, env *Env) Val {
 		return boolVal(fmt.Sprintf("(and (forall ((%s Int)) (! (=> (or (< %s (+ %s %s)) (>= %s (+ %s %s))) (= (select (select %s %s) %s) (select (select %s %s) %s))) :pattern ((select (select %s %s) %s)))) (forall ((%s Int)) (! (=> (not (= %s %s)) (= (select %s %s) (select %s %s))) :pattern ((select %s %s)))))",
 			j, j, b.C[1], lo, j, b.C[1], hi, an, b.C[0], j, ao, b.C[0], j, an, b.C[0], j,
 			r, r, b.C[0], an, r, ao, r, an, r))
+	case "maphas", "mapget":
+		// maphas(m, k) / mapget(m, k): presence / value of the entry stored under exactly the key value k
+		mv := fc.evalExpr(x.Args[0], env)
+		kv := fc.evalExpr(x.Args[1], env)
+		if _, ok := mv.T.Underlying().(*types.Map); !ok {
+			fc.fail("%s expects a map", x.Fn)
+		}
+		if x.Fn == "maphas" {
+			return boolVal(fc.mapHas(h, mv.T, mv.S(), kv))
+		}
+		return fc.mapGet(h, mv.T, mv.S(), kv)
 	case "typeof":
 		// typeof(x): dynamic type tag of an interface value, or the static type of a non-interface value
 		v := fc.evalExpr(x.Args[0], env)
